@@ -279,3 +279,37 @@ func Verif_C08_fixed_ttl_case() {
 	t0 := entry.OriginalDeadline.UnixNano() - int64(ttl)*c08Sec
 	vs.Assert("the entry lives for the fixed ttl of its name, however the question was spelled", entry.Deadline.UnixNano() == t0+int64(fixedTtl)*c08Sec)
 }
+
+// Verif_C08_concurrent_lookups: two lookups of one fresh entry race (every interleaving with one
+// preemption at an atomic operation, arbitrary instants): whichever reply each of them is handed,
+// the TTL it shows does not exceed the entry's remaining lifetime by more than the slack.
+func Verif_C08_concurrent_lookups() {
+	c08Install()
+	vs.Schedules(1)
+	c := c08Controller(false, 0, 100, nil)
+	key := c.cacheKey("example.com.", dnsmessage.TypeA)
+	const ttl = 300
+	err := c.UpdateDnsCacheTtlWithKey(key, "example.com.", dnsmessage.TypeA, c08Answer("example.com.", ttl), nil, nil, ttl)
+	vs.Assert("insert succeeds", err == nil)
+	v, _ := c.dnsCache.Load(key)
+	entry := v.(*DnsCache)
+	deadline := entry.Deadline.UnixNano()
+	var before, shown [2]int64
+	var served [2]bool
+	for i := 0; i < 2; i++ {
+		i := i
+		go func() {
+			before[i] = time.Now().UnixNano()
+			if r, _ := c.LookupDnsRespCache_(c08Query("example.com."), key, false); r != nil {
+				served[i], shown[i] = true, int64(c08BlobTTL(r))
+			}
+		}()
+	}
+	vs.Join()
+	for i := range served {
+		if served[i] {
+			remaining := (deadline - before[i]) / c08Sec // an upper bound: the lookup read the clock after before[i]
+			vs.Assert("shown ttl within the approximation slack, also when lookups race", shown[i] <= remaining+1+ttlRefreshThresholdSeconds)
+		}
+	}
+}
